@@ -3,6 +3,10 @@
 package script
 
 import (
+	"vt/internal/fx/delta"
+	lcodec "vt/internal/fx/left/codec"
+	rcodec "vt/internal/fx/right/codec"
+
 	"context"
 	"encoding/json"
 	"errors"
@@ -142,7 +146,7 @@ func (s *state) instance() int {
 
 type fixed[N nm] struct{ st state }
 
-func (f *fixed[N]) Name() string     { var n N; return n.N() }
+func (f *fixed[N]) Name() string       { var n N; return n.N() }
 func (f *fixed[N]) protoState() *state { return &f.st }
 func (f *fixed[N]) GenerateType(c gengo.Context, t *types.Named) error {
 	return generate(current[f.Name()], &f.st, c, t.Obj(), false)
@@ -312,6 +316,16 @@ func render(c gengo.Context, pieces []Piece, gen, typ string, st *state, into *s
 				panic("script: bad value piece: " + err.Error())
 			}
 			sn = snippet.Value(toTyped(v))
+		case "valuecompete":
+			// a map whose entries mention two packages with the same natural import name: which one an entry mentions must
+			// not depend on the iteration order of the map
+			sn = snippet.Value(map[string]delta.Mixed{
+				"diag": {P: &lcodec.Opt{N: 1}},
+				"info": {Q: &rcodec.Opt{S: "x"}},
+				"more": {M: []lcodec.Mode{"m"}},
+				"last": {L: []rcodec.Level{1}},
+				"both": {Q: &rcodec.Opt{S: "y"}, P: &lcodec.Opt{N: 2}},
+			})
 		default:
 			panic("script: unknown piece kind " + p.Kind)
 		}
